@@ -23,6 +23,10 @@ checks = {
    technique="exhaustive enumeration of exact voxel/pixel solids x positions x alignments on the discovered lattice; three-way multiset comparison against the unpruned render and the finest-cell reference",
    text="All 255 unions of a 2x2x2 voxel block (3D octree) and all 511 unions of a 3x3 pixel block (2D quadtree), voxel size 1 and 2 cells, at every position of a 2^3 (3^3) / 3^2 (4^2) window of the renderer's own discovered lattice, with faces on lattice planes, 1e-5 cell either side of them, mid-cell and third-cell, at meshCells 4,5,8(,16) / 5,8,16(,32); plus analytic shapes (incl. discs of radius 1e-5..0.05 cell centred on corners shared by coarse squares) at 3-11 resolutions. Each is rendered through the real hierarchical renderer and compared bit-exactly as a multiset with (1) the same renderer on the 2^-10-scaled field (nothing prunable) and (2) the real per-cell step applied to every finest cell of the discovered lattice; (3) the sampled volume must cover the bounding box.",
    note="solids are exact (never overestimating) by construction; lattice and corner coordinates are taken from a probe render, not recomputed"),
+ "C06": dict(engine="L", design="3/C06",
+   technique="exhaustive table enumeration on the discovered lattice + bounded analytic families, independent zero-crossing oracle on every vertex",
+   text="(A) every {-1,0,1}^8 table and 256 sign configurations x <=2 special corners (magnitudes 1/4, 1e-13, 3) of a free cell, and position-coded fields (all corner values distinct; 5 sign patterns incl. exact zeros and 1e-13) on 7 lattices whose y-z layers have 81/99/100/121/200/225/300 points (evaluation batch size 100 hit exactly, +-1, twice), through both real renderers: every mesh vertex must lie on an edge of the discovered lattice whose end values straddle zero, at the independently computed linear zero crossing. (B) planes in all 124 directions of {-2..2}^3 x 5 offsets, spheres (3 radii x 9 centres), 6 solids x 3 poses, at 3-7 resolutions, both renderers: |f(v)| within the bound of the property (1e-9 size / h^2/(8(R-h)) / h), mesh sample points within a cell diagonal, normals along the gradient, vertices inside the sampled box, sampled box covers the bounding box; completeness (sphere incl. poles, box faces, shapes in their own tight boxes) by exact point-to-mesh distance; volume error ratio >= 3 per doubling on the ladder 8,16,32(,64).",
+   note="continuous quantifiers decided on finite families; convergence on a finite ladder"),
 }
 props = [json.loads(l) for l in open(os.path.join(V, "properties.jsonl"))]
 pending_reason = "check not built yet in this session (work in progress, see DESIGN.md section 3 for the planned bounded-exhaustive check)"
